@@ -140,6 +140,8 @@ def case_pointer(ctx, case):
     if abs_t < 0:
         return
     want = iso(x, data, abs_t)
+    if form == "aux":
+        return case_pointer_aux(ctx, case, x, data, target, start, abs_t, want)
     if form == "const":
         d = C.Pointer(target, mk(x))
         kw = {}
@@ -180,6 +182,53 @@ def case_pointer(ctx, case):
             ctx.violation("pointer-accepts-failing-inner", "inner fails (%s) but Pointer returned %r" % (want[1], got[1]), case)
 
 
+def case_pointer_aux(ctx, case, x, data, target, start, abs_t, want):
+    """Pointer(..., stream=<another stream>): the inner construct works on the other stream at the target, that stream's own
+    position is restored, the main stream is neither read, written nor moved"""
+    import construct as C
+    d = C.Pointer(target, mk(x), stream=C.this._params.aux)
+    for aux_start in (0, 2, len(data)):
+        main = TracedStream(b"\xEE" * 9, pos=start)
+        aux = TracedStream(data, pos=aux_start)
+        ctx.ev()
+        try:
+            got = ("ok", d.parse_stream(main, aux=aux))
+        except Exception as e:
+            got = ("exc", type(e).__name__)
+        if want[0] != "ok":
+            if got[0] != "exc":
+                ctx.violation("pointer-accepts-failing-inner", "inner fails (%s) but Pointer returned %r" % (want[1], got[1]), case)
+            continue
+        if got[0] != "ok" or not veq(got[1], want[1]):
+            ctx.violation("pointer-aux-value", "Pointer(%d, x, stream=aux) -> %r, x alone on aux at %d -> %r" % (target, got, abs_t, want[1]), case)
+            return
+        if aux.pos != aux_start:
+            ctx.violation("pointer-aux-position-after-parse", "the other stream stands at %d after the Pointer parse, it stood at %d (main stream at %d)" % (aux.pos, aux_start, start), case)
+            return
+        if main.pos != start or any(op[0] in ("read", "write") for op in main.log):
+            ctx.violation("pointer-aux-touches-main-stream", "main stream moved to %d / was read although stream= names another stream" % main.pos, case)
+            return
+        if aux_start != start:
+            ctx.nontrivial("pointer-aux", case["member"], target, start, aux_start)
+        v = want[1]
+        try:
+            enc = mk(x).build(v)
+        except Exception:
+            continue
+        main2 = TracedStream(b"\xEE" * 9, pos=start)
+        aux2 = TracedStream(bytes(data), pos=aux_start)
+        try:
+            d.build_stream(v, main2, aux=aux2)
+        except Exception as e:
+            ctx.violation("pointer-aux-build-raises:" + type(e).__name__, repr(e), case)
+            return
+        out = aux2.getvalue()
+        if aux2.pos != aux_start or main2.pos != start or main2.getvalue() != b"\xEE" * 9:
+            ctx.violation("pointer-aux-position-after-build", "after build: other stream at %d (was %d), main stream at %d (was %d)" % (aux2.pos, aux_start, main2.pos, start), case)
+        elif out[abs_t:abs_t + len(enc)] != enc or out[:abs_t] != data[:abs_t]:
+            ctx.violation("pointer-aux-build-target", "bytes at target %d of the other stream are %s, expected %s" % (abs_t, out[abs_t:abs_t + len(enc)].hex(), enc.hex()), case)
+
+
 def case_select(ctx, case):
     import construct as C
     names = case["alts"]
@@ -213,6 +262,12 @@ def case_select(ctx, case):
     if want is None:
         if got != ("exc", "SelectError"):
             ctx.violation(kind + "-no-alternative", "no alternative parses in isolation but Select -> %r" % (got,), case)
+        elif s.pos != off:
+            # a caller that catches the error and goes on with the stream (resynchronising, trying another format)
+            ctx.violation(kind + "-position-after-all-fail", "every alternative failed; stream left at %d, started at %d" % (s.pos, off), case)
+        if consumed_fail:
+            ctx.nontrivial(kind, case)
+            ctx.count("all_alternatives_failed_after_consuming")
         return
     if got[0] != "ok" or not veq(got[1], want[1]):
         ctx.violation(kind + "-value", "Select -> %r; first succeeding alternative alone -> %r" % (got, want[1]), case)
@@ -398,7 +453,7 @@ def run(ctx):
                 blob = b"\x10\x11\x12" + c + b"\x20\x21" + c[:max(0, len(c) - 1)]
                 for target in (0, 3, 4, len(blob) - len(c) + 1, -len(c) + 1 - 0, -(len(c) - 1 + 2 + len(c)), -1, -len(blob)):
                     for start in (0, 1, 5):
-                        for form in ("const", "ctx"):
+                        for form in ("const", "ctx", "aux"):
                             run_case(ctx, {"kind": "pointer", "member": job[1], "data": tag(blob), "target": target, "offset": start, "form": form})
         elif kind == "optional":
             for data in inputs_for([job[1]], rng):
